@@ -400,7 +400,7 @@ def rule_reflected(ctx, py):
 def run(ctx):
     # package-wide disciplines first: they need no anchor, and what they find stands whatever the rules below can analyse
     from .. import lints
-    lints.run(ctx, "C05", ctx.py, ["units"], truth_floor=28)
+    lints.run(ctx, "C05", ctx.py, ["units"], truth_floor=20)
     py = ctx.py
     rule_tag(ctx, py)
     rule_raise(ctx, py)
